@@ -75,6 +75,29 @@ def alignment_branch(repo: Repo) -> RuleRun:
         )
         r.check(untouched.get("grading")._name == "own2", cn, "wires without coincidents untouched", "copy_neighbours changes a wire that has no coincident wire", cn.node, key=f"copy_neighbours:{label}:other")
 
+    # WirePropagateManager.grade(): the coincident gradings are copied on EVERY grade, also when the chops have already arrived
+    gr = repo.func("items.wires.manager.WirePropagateManager.grade")
+    for n_chops in (0, 2):
+        w = _wire(repo, "w", a, b)
+        w.set("grading", grading("own", False))
+        co = _wire(repo, "co", a, b)
+        co.set("grading", grading("G", True))
+        w.set("coincidents", {co})
+        mgr = Obj("mgr", cls=repo.cls("items.wires.manager.WirePropagateManager"))
+        mgr.set("wires", [w])
+        mgr.set("chops", [Obj(f"chop{i}") for i in range(n_chops)])
+        mgr.set("length", 1)
+
+        def ghook(ev, call: ast.Call, nm):
+            if nm == "Grading":
+                return Obj("fresh_grading", is_defined=False)
+            if isinstance(call.func, ast.Attribute) and call.func.attr == "add_chop":
+                return None
+            return NO_MATCH
+
+        _run(Evaluator(repo=repo, module=gr.module, call_hook=ghook), gr, [mgr])
+        got = w.get("grading")._name
+        r.check(got == "G", gr, f"grade() with {n_chops} chops held: coincident grading copied", f"WirePropagateManager.grade with {n_chops} chop(s) already on the axis leaves the wire with grading '{got}' although a coincident wire of another block is graded: the shared edge is re-solved from the chops alone and the two blocks write different cell sequences on it", gr.node, key=f"grade-copies:{n_chops}")
     # Axis.copy_grading - with real (symbolic) Chop records: whatever way the copies are made, each chop handed to
     # add_chop must equal Chop.copy_preserving(inverted=<anti-aligned>) of the neighbour's chop, in the right order
     cg = repo.func("items.wires.axis.Axis.copy_grading")
@@ -272,6 +295,9 @@ def preserve_carried(repo: Repo) -> RuleRun:
     pres = literal_members(repo, chop.module, chop.class_annotations.get("preserve"))
     r.require(bool(pres), "Chop.preserve Literal not found")
     fn = repo.func("grading.chop.Chop.copy_preserving")
+    # a copy leaves its source alone: the user's chop keeps what the user gave (a stored count would pin the count of every later edge)
+    stores = [n for n in ast.walk(fn.node) if isinstance(n, (ast.Assign, ast.AugAssign, ast.AnnAssign)) for t in (n.targets if isinstance(n, ast.Assign) else [n.target]) if isinstance(t, ast.Attribute) and attr_chain(t.value) == fn.params[0]]
+    r.check(not stores, fn, "copy_preserving does not modify the chop it copies", f"Chop.copy_preserving writes to its own source ('{ast.unparse(stores[0])[:60] if stores else ''}'): the user's chop now carries a value it was never given, and the next calculate() on another edge length reproduces that instead of the given parameters", stores[0] if stores else fn.node, key="copy:pure")
     ratio_fields = ["total_expansion", "c2c_expansion", "start_size", "end_size"]
     for p in pres:
         for inverted in (False, True):
